@@ -8,6 +8,7 @@ specification of "accepts" (accept matrix computed by calling each to_internal_v
 import itertools
 import math
 
+from mc import alphabet as A
 from mc import core, ir, pipeline
 from json_to_models.generator import MetadataGenerator
 
@@ -116,6 +117,37 @@ def accept_row(s):
     return row
 
 
+def _reference(n, s):
+    """stdlib value of a canonical int / float / bool / ISO date / time / datetime spelling for the type that matches its form"""
+    import datetime
+    form = A.string_form("x", s)
+    try:
+        if n == "IntString" and form == "canon:int":
+            return int(s)
+        if n == "FloatString" and form in ("canon:int", "canon:float"):
+            return float(s)
+        if n == "BooleanString" and form == "canon:bool":
+            return s.lower() == "true"
+        if n == "IsoDateString" and form == "canon:date":
+            return datetime.date.fromisoformat(s)
+        if n == "IsoTimeString" and form == "canon:time":
+            return datetime.time.fromisoformat(s)
+        if n == "IsoDatetimeString" and form == "canon:datetime":
+            return datetime.datetime.fromisoformat(s)
+    except Exception:
+        return None
+    return None
+
+
+def _denotes(v, ref):
+    import datetime
+    if isinstance(ref, (datetime.datetime, datetime.time)):
+        return v == ref and v.utcoffset() == ref.utcoffset() and v.replace(tzinfo=None) == ref.replace(tzinfo=None)
+    if isinstance(ref, bool):
+        return bool(v) == ref
+    return v == ref
+
+
 def _eq(a, b):
     if isinstance(a, float) and isinstance(b, float) and math.isnan(a) and math.isnan(b):
         return True
@@ -220,6 +252,10 @@ def _detect(case):
                 v2 = T[n].to_internal_value(rep)
                 if not isinstance(rep, str) or not _eq(v, v2):
                     viol.append(core.viol("round_trip_changes_value", n, shape, f"{s[:40]!r} -> {v!r} -> {rep!r} -> {v2!r}"))
+                # the parsed value is the value the string denotes: for canonical spellings the standard library is the reference
+                ref = _reference(n, s)
+                if ref is not None and not _denotes(v, ref):
+                    viol.append(core.viol("parsed_value_differs_from_reference", n, shape, f"{s[:40]!r} parsed as {v!r}, denotes {ref!r}"))
             except Exception as e:
                 viol.append(core.viol("round_trip_raises", f"{n}:{type(e).__name__}", shape, f"{s[:40]!r}: {type(e).__name__}: {e}"))
     for conf in case["confs"]:
